@@ -9,6 +9,7 @@ mod nm;
 mod sr;
 mod ty;
 mod st;
+mod sd;
 mod util;
 
 #[global_allocator]
@@ -32,6 +33,7 @@ fn main() {
         "ty-record" => ty::record(&args),
         "f32-sweep" => nm::f32_sweep(&args),
         "dom-replay" => dom::replay(&args),
+        "sd-replay" => sd::replay(&args),
         "nest" => nest(&args),
         _ => { eprintln!("unknown command {cmd}"); 2 }
     };
